@@ -11,7 +11,7 @@ import (
 )
 
 // handleCEA handles Capabilities-Exchange-Answer messages.
-func handleCEA(sm *StateMachine, errc chan error) diam.HandlerFunc {
+func handleCEA(sm *StateMachine, errc chan error, closeErrc func()) diam.HandlerFunc {
 	return func(c diam.Conn, m *diam.Message) {
 		if _, ok := smpeer.FromContext(c.Context()); ok {
 			// The handshake is complete: errc is closed and nobody is
@@ -34,6 +34,6 @@ func handleCEA(sm *StateMachine, errc chan error) diam.HandlerFunc {
 		}
 		// Done receiving and validating this CEA.
 		vevent("cea.ok", c)
-		close(errc)
+		closeErrc()
 	}
 }
